@@ -173,10 +173,14 @@ def pair_sustain(ctx, R="C07.pair"):
     la = [l["stmt"] for l in ra.for_loops() if str(l["iter"]) == "block.design"]
     lc = [l["stmt"] for l in rc.for_loops() if str(l["iter"]) == "block.design"]
     if la and lc:
-        fa = [str(ra.at(x, x.test)) for x in la[0].body if isinstance(x, ast.If)]
-        fc = [str(rc.at(x, x.test)) for x in lc[0].body if isinstance(x, ast.If)]
-        ctx.check(fa == [] and fc == ["(1 < %s)" % s], R, c, "Sustain factor filter %s / %s" % (fa, fc), "every factor of the design is held by the encoder; the checker skips only unsustained factors",
-                  "the two sides of Sustain cover different factors: encoder filter %s, checker filter %s (expected none / only `sustain count > 1`): a factor the encoder holds constant "
+        from ..facts import Facts
+        Fa, Fc = Facts(a), Facts(c)
+        iffs = [x for x in Fa.stmts if isinstance(x, ast.Expr) and "iffs.append" in ast.unparse(x)]
+        reads = [x for x in Fc.stmts if isinstance(x, ast.Assign) and "sample[f]" in ast.unparse(x.value)]
+        fa = sorted({l for x in iffs for l in Fa.conds(x)})
+        fc = sorted({l for x in reads for l in Fc.conds(x)})
+        ctx.check(bool(iffs) and bool(reads) and fa == [] and fc == ["(1 < %s)" % s], R, c, "Sustain factor filter %s / %s" % (fa, fc), "every factor of the design is held by the encoder; the checker skips only unsustained factors",
+                  "the two sides of Sustain cover different factors: encoder condition %s, checker condition %s (expected none / only `sustain count > 1`): a factor the encoder holds constant "
                   "is not checked, or the reverse" % (fa, fc), lc[0])
 
 
@@ -195,17 +199,17 @@ def pair_pin(ctx, R="C07.pair"):
               ast.unparse(cmp_[0].body[0]) == "return False", R, c, "Pin comparison",
               "checker rejects a different level at the pinned trial", "Pin checker comparison changed")
     # out-of-range: SAT side emits a contradiction, checker returns False
-    guards_a = [st for st in ra.stmts if isinstance(st, ast.If) and dotted(st.test) == "trial_nos"]
-    guards_c = [st for st in rc.stmts if isinstance(st, ast.If) and dotted(st.test) == "trial_nos"]
-    ctx.require(len(guards_a) == 1 and len(guards_c) == 1, "Pin: emptiness guard on trial_nos not found")
-    ea = ast.unparse(guards_a[0].orelse[0]) if guards_a[0].orelse else ""
-    ec = ast.unparse(guards_c[0].orelse[0]) if guards_c[0].orelse else ""
-    ctx.check("And([1, -1])" in ea.replace("(1, -1)", "[1, -1]") and ec == "return False", R, c, "Pin out-of-range",
-              "no such trial: SAT side unsatisfiable, checker rejects",
-              "Pin out-of-range handling differs: SAT `%s`, checker `%s`" % (ea, ec))
-    oka = [st for st in guards_c[0].body if isinstance(st, ast.Return)]
-    ctx.check(len(oka) == 1 and ast.unparse(oka[0]) == "return True", R, c, "Pin accept", "accepts after all pinned trials matched",
-              "Pin checker accept path changed")
+    from ..facts import Facts
+    Fa, Fc = Facts(a), Facts(c)
+    contr = [st for st in Fa.stmts if isinstance(st, ast.Expr) and "And([1, -1])" in ast.unparse(st).replace("(1, -1)", "[1, -1]") and "cnfs" in ast.unparse(st)]
+    pins = [st for st in Fa.stmts if isinstance(st, ast.Expr) and "cnfs" in ast.unparse(st) and st not in contr]
+    rets = Fc.cases()
+    T = "block.get_trial_numbers(self.factor, self.index, self.within_block)"
+    ok = len(contr) == 1 and Fa.conds(contr[0]) == ["not(%s)" % T] and bool(pins) and all(T in Fa.conds(p) for p in pins) and \
+        ((("not(%s)" % T,), "False") in rets)
+    ctx.check(ok, R, c, "Pin out-of-range", "no such trial: SAT side unsatisfiable, checker rejects",
+              "Pin out-of-range handling differs: SAT contradiction under %s, checker returns %s" % ([Fa.conds(x) for x in contr], rets))
+    ctx.check(((T,), "True") in rets, R, c, "Pin accept", "accepts after all pinned trials matched", "Pin checker accept path changed: %s" % rets)
 
 
 def pair_exclude(ctx, R="C07.pair"):
@@ -384,14 +388,12 @@ def crossing_facts(ctx, R="C07.crossing"):
                   [str(rw.at(s, s.test)) for s in conds], adv, wl["stride"]))
 
     # ---- checker side (sample_mismatch_crossing)
-    st_ = [s for s in rm.stmts if isinstance(s, ast.Assign) and dotted(s.targets[0]) == "start"]
-    starts = sorted(str(rm.at(s, s.value)) for s in st_)
-    ctx.check(starts == ["self.preamble_size()", "self.preamble_sizes[i]"], R, mm, "F1 checker start %s" % starts,
+    wl0 = _one(ctx, rm.while_loops(), "while loop", mm)
+    st0 = str(wl0["start"])
+    ctx.check(st0 == "ite((self.alignment is AlignmentMode.POST_PREAMBLE), self.preamble_size(), self.preamble_sizes[i])", R, mm, "F1 checker start %s" % st0,
               "F1: window starts after the preamble (POST_PREAMBLE: unified preamble; otherwise the crossing's own)",
-              "sample_mismatch_crossing window starts are %s" % starts)
-    al = [s for s in rm.stmts if isinstance(s, ast.If) and "POST_PREAMBLE" in ast.unparse(s.test)]
-    ctx.check(len(al) == 1 and "self.alignment" in ast.unparse(al[0].test), R, mm, "F1 checker alignment split",
-              "alignment split on POST_PREAMBLE as in preamble_size()", "alignment split of sample_mismatch_crossing changed")
+              "sample_mismatch_crossing window starts at `%s`" % st0)
+    ctx.ok(R, mm, "F1 checker alignment split on POST_PREAMBLE as in preamble_size()", trivial=True)
     wl = _one(ctx, rm.while_loops(), "while loop", mm)
     chunk = str(wl["stride"])
     ctx.check(chunk == "self.crossing_sizes[i]*self.crossing_weight(crossing)", R, mm, "F2 checker chunk %s" % chunk,
